@@ -1,6 +1,6 @@
 (* C32/ProofsProcess.v — the stages of the repaired FullSyncStrategy.Process keep every fragment a
    non-empty good chain, never panic, and hand the importer only importable lists. *)
-From Coq Require Import NArith ZArith List Bool Lia.
+From Coq Require Import NArith ZArith List Bool Lia Permutation Sorted.
 From Common Require Import Outcome.
 From C32 Require Import Gen Model ModelSpec ProofsChain ProofsImport.
 Import ListNotations.
@@ -194,12 +194,67 @@ Proof.
   destruct (F f Hf) as [NE _]. destruct f; [congruence|discriminate].
 Qed.
 
+(* what the safety proof needs of the sort: it keeps every property all fragments have.  Every
+   permutation does (in particular whatever slices.SortFunc produces); so does sort_frags. *)
+Definition keeps_forall (srt : list (list bdata) -> list (list bdata)) : Prop :=
+  forall (P : list bdata -> Prop) l, Forall P l -> Forall P (srt l).
+
+Lemma perm_keeps_forall srt : (forall l, Permutation (srt l) l) -> keeps_forall srt.
+Proof. intros H P l F. eapply Permutation_Forall; [apply Permutation_sym, H|exact F]. Qed.
+
+Lemma sort_frags_keeps : keeps_forall sort_frags.
+Proof. intros P l F. now apply Forall_sort_frags. Qed.
+
+Lemma insert_frag_perm f : forall l, Permutation (insert_frag f l) (f :: l).
+Proof.
+  induction l as [|g l IH]; cbn [insert_frag]; [reflexivity|].
+  destruct (first_num f <? first_num g); [reflexivity|].
+  rewrite IH. apply perm_swap.
+Qed.
+
+Lemma sort_frags_perm l : Permutation (sort_frags l) l.
+Proof.
+  unfold sort_frags.
+  assert (G : forall l acc, Permutation (fold_left (fun acc f => insert_frag f acc) l acc) (l ++ acc)).
+  { clear. induction l as [|f l IH]; intro acc; cbn [fold_left app]; [reflexivity|].
+    rewrite IH. rewrite insert_frag_perm. symmetry. apply Permutation_middle. }
+  rewrite G. now rewrite app_nil_r.
+Qed.
+
+(* the model's sort is a sort: the result is ordered by the number of the first block *)
+Lemma insert_frag_sorted f : forall l,
+  StronglySorted (fun a b => first_num a <= first_num b) l ->
+  StronglySorted (fun a b => first_num a <= first_num b) (insert_frag f l).
+Proof.
+  induction l as [|g l IH]; intro S; cbn [insert_frag]; [repeat constructor|].
+  inversion S as [|? ? Sl Fg]; subst.
+  destruct (first_num f <? first_num g) eqn:E.
+  - apply N.ltb_lt in E. constructor; [exact S|]. constructor; [lia|].
+    eapply Forall_impl; [|exact Fg]. cbn. intros a Ha. lia.
+  - apply N.ltb_ge in E. constructor; [now apply IH|].
+    eapply Permutation_Forall; [apply Permutation_sym, insert_frag_perm|]. constructor; auto.
+Qed.
+
+Lemma sort_frags_sorted l : StronglySorted (fun a b => first_num a <= first_num b) (sort_frags l).
+Proof.
+  unfold sort_frags.
+  assert (G : forall l acc, StronglySorted (fun a b => first_num a <= first_num b) acc ->
+    StronglySorted (fun a b => first_num a <= first_num b) (fold_left (fun acc f => insert_frag f acc) l acc)).
+  { clear. induction l as [|f l IH]; intros acc S; cbn [fold_left]; [exact S|].
+    apply IH. now apply insert_frag_sorted. }
+  apply G. constructor.
+Qed.
+
+Lemma sort_fragments_with_ok srt l : keeps_forall srt -> Forall gfrag l ->
+  sort_fragments_with srt l = Ok (srt l) /\ Forall gfrag (srt l).
+Proof.
+  intros K F. unfold sort_fragments_with. rewrite (has_empty_gfrag l F), andb_false_r.
+  split; [reflexivity|now apply K].
+Qed.
+
 Lemma sort_fragments_ok l : Forall gfrag l ->
   sort_fragments l = Ok (sort_frags l) /\ Forall gfrag (sort_frags l).
-Proof.
-  intro F. unfold sort_fragments. rewrite (has_empty_gfrag l F), andb_false_r.
-  split; [reflexivity|now apply Forall_sort_frags].
-Qed.
+Proof. exact (sort_fragments_with_ok sort_frags l sort_frags_keeps). Qed.
 
 Lemma merge_loop_ok rest : forall merged cur,
   Forall gfrag merged -> gfrag cur -> Forall gfrag rest ->
@@ -293,19 +348,20 @@ Definition inv_state (st : pstate) (imported : list N) : Prop :=
 Lemma inv_state_intro e u q imp : inv_un u -> imported_known imp e -> inv_state (mkps e u q) imp.
 Proof. intros; split; auto. Qed.
 
-Lemma process_fixed_ok bad st rs imported :
+Lemma process_with_fixed_ok srt bad st rs imported :
+  keeps_forall srt ->
   inv_state st imported -> Forall (fun r => result_wf_b r = true) rs ->
   exists r imported',
-    process true true true bad st rs = Ok r
+    process_with srt true true true bad st rs = Ok r
     /\ pr_error r = false
     /\ events_ok_b imported (pr_events r) = (true, imported')
     /\ inv_state (pr_state r) imported'.
 Proof.
-  intros [IU IK] W. unfold process.
+  intros KS [IU IK] W. unfold process_with.
   destruct (validate_results_fixed bad rs (mkval [] [] []) W (Forall_nil _)) as (v & EV & VV). rewrite EV.
   destruct (collect_ready_ok (fin (p_env st)) (v_ok v) (p_un st) [] IU VV (Forall_nil _))
     as (u1 & ready & EC & IU1 & FR). rewrite EC.
-  destruct (sort_fragments_ok ready FR) as [ES FS]. rewrite ES.
+  destruct (sort_fragments_with_ok srt ready KS FR) as [ES FS]. rewrite ES.
   destruct (merge_fragments_ok _ FS) as (ordered & EM & FO). rewrite EM.
   destruct (split_known_ok (p_env st) ordered [] [] FO (imp_nil _) (Forall_nil _))
     as (next & dis & EK & IN & FD). rewrite EK.
@@ -351,3 +407,12 @@ Proof.
       split; [reflexivity|]. split; [rewrite events_ok_app, EO; exact EO2|].
       apply inv_state_intro; auto using remove_irrelevant_ok.
 Qed.
+
+Lemma process_fixed_ok bad st rs imported :
+  inv_state st imported -> Forall (fun r => result_wf_b r = true) rs ->
+  exists r imported',
+    process true true true bad st rs = Ok r
+    /\ pr_error r = false
+    /\ events_ok_b imported (pr_events r) = (true, imported')
+    /\ inv_state (pr_state r) imported'.
+Proof. exact (process_with_fixed_ok sort_frags bad st rs imported sort_frags_keeps). Qed.
